@@ -182,3 +182,7 @@ mod tests {
         assert!(!diff.cleared());
     }
 }
+
+#[cfg(kani)]
+#[path = "/verif/units/kani/page_diff.rs"]
+mod verif_kani;
